@@ -377,10 +377,21 @@ func init() {
 			// a panic whose value depends on the drawn data: the report must name the value of the minimized case
 			"((draw a (slice (i 0 1000) 0 6)) (draw b (i 0 100000)) (if (ge b 1000) (panicv 1 b)))",
 			"((draw b (u 0 18446744073709551615)) (draw c (bool)) (if (ge b 77) (panicv 2 b)))",
+			// a non-fatal failure on large values, and a cleanup that skips on small ones (where nothing failed): a skipped
+			// test case is not "the same failure" as the recorded one
+			"((draw n (i 0 1000)) (cleanup (if (lt n 100) (skip))) (if (ge n 500) (error 1)))",
+			"((draw n (u 0 18446744073709551615)) (draw b (bool)) (cleanup (if (lt n 7) (skip))) (if (ge n 1000) (fail)))",
 		}
 		for i := 0; i < 60*scale; i++ {
 			var prog *SX
-			switch r.intn(5) {
+			pick := r.intn(5)
+			if i < 2*len(sameSite) {
+				pick = 5 // every listed program at least twice
+			}
+			switch pick {
+			case 5:
+				prog = mustSX(sameSite[i%len(sameSite)])
+				m.tag("same-site-messages")
 			case 0:
 				prog = r.engineProgram()
 			case 1:
